@@ -63,6 +63,12 @@ def o_q_request(sim, op, spec, out):
         want_cat = args[1] if len(args) > 1 else None
         want_cap = args[2] if len(args) > 2 else None
         want_unit = M.current_spelling(un) if un is not None else None
+        if un is not None and want_cat is None and form in ("u", "legacy"):
+            # ObtainQuantity(unit): "the category is gotten based on the unit passed"
+            try:
+                want_cat = _db().GetDefaultCategory(want_unit)
+            except Exception:
+                want_cat = None
         if un is None and want_cat is not None:
             # ObtainQuantity(None, category): the category's default unit as registered NOW
             try:
@@ -314,6 +320,17 @@ def _representable(want, rel):
     return w == 0.0 or 1e-30 < w < 1e30
 
 
+def _representable_via_base(db, qt, unit, v, rel):
+    """Single precision: the intermediate amount in the base unit must be representable too."""
+    if rel < 1e-7:
+        return True
+    try:
+        mid = db.Convert(qt, unit, db.GetBaseUnit(qt), float(v))
+    except Exception:
+        return False
+    return _representable(mid, rel)
+
+
 def o_changing_index(sim, op, spec, out):
     import barril.units as u
 
@@ -375,11 +392,18 @@ def o_changing_index(sim, op, spec, out):
             want = db.Convert(qt, xu, want_unit, float(xv))
         else:
             want = db.Convert(qt, fa.GetUnit(), want_unit, float(vals[j]))
-        if not _representable(want, rel) or not all(_representable(v, rel) for v in vals):
+        if not _representable(want, rel) or not all(_representable(v, rel) for v in vals) or not _representable_via_base(db, qt, fa.GetUnit(), vals[j], rel):
             sim.count("oracle_inapplicable:single_precision_range")
             continue
+        if rel > 1e-7:
+            # single precision: an affine conversion near its offset cancels leading digits, the
+            # error is relative to the amounts before the cancellation
+            scale = max(abs(float(want)), abs(float(vals[j])) if j != pos else abs(float(xv)), 1e-30)
+            ok_j = abs(float(got[j]) - float(want)) <= 4e-6 * max(scale, 300.0)
+        else:
+            ok_j = M.close(got[j], want, rel)
         if not sim.check(
-            M.close(got[j], want, rel),
+            ok_j,
             sid,
             dict(sig, case="changed_position" if j == pos else "other_position"),
             op["i"],
@@ -445,10 +469,14 @@ def o_index_as_scalar(sim, op, spec, out):
         sim.count("oracle_inapplicable:non_flat_container")
         return
     want = _db().Convert(fa.GetQuantityType(), fa.GetUnit(), q.GetUnit(), float(vals[idx]))
-    if not _representable(want, _rel(vals)) or not _representable(vals[idx], _rel(vals)):
+    if not _representable(want, _rel(vals)) or not _representable(vals[idx], _rel(vals)) or not _representable_via_base(_db(), fa.GetQuantityType(), fa.GetUnit(), vals[idx], _rel(vals)):
         sim.count("oracle_inapplicable:single_precision_range")
         return
-    sim.check(M.close(res.GetValue(), want, _rel(vals)), sid, {"case": "amount"}, op["i"], lambda: "got %r expected %r" % (res.GetValue(), want))
+    if _rel(vals) > 1e-7:
+        ok_amount = abs(float(res.GetValue()) - float(want)) <= 4e-6 * max(abs(float(want)), abs(float(vals[idx])), 300.0)
+    else:
+        ok_amount = M.close(res.GetValue(), want, _rel(vals))
+    sim.check(ok_amount, sid, {"case": "amount"}, op["i"], lambda: "got %r expected %r" % (res.GetValue(), want))
 
 
 def o_curve_set(sim, op, spec, out):
